@@ -1044,7 +1044,23 @@ const MEMBER_LIKE: &[u16] = &[
 const NAMESPACE: u16 = 0x39;
 const SUBPROGRAM: u16 = 0x2e;
 
+/// `MAX_ENTRY_VALUE_DEPTH` of src/write/op.rs (fix 8679173; the Model takes it from the source): an
+/// operation nested in more DW_OP_entry_value operations than this can never be converted
+/// (`Expression::from_nested` rejects it) and the filter does not descend to it
+const MAX_NEST: usize = 64;
+
 fn op_targets(op: &AOp, all: bool, out: &mut Vec<Tgt>) {
+    op_targets_bounded(op, all, usize::MAX, out)
+}
+
+/// `max_nest`: targets nested in more than this many DW_OP_entry_value operations are left out — for
+/// the *lower* closure bound: an expression nested deeper makes the conversion of its entry fail, and
+/// where that entry is not converted at all (a later unit of a split section) nothing refers to the
+/// target from the output
+fn op_targets_bounded(op: &AOp, all: bool, max_nest: usize, out: &mut Vec<Tgt>) {
+    if nest_depth(op) > max_nest {
+        return;
+    }
     match op {
         AOp::Plain => {}
         AOp::Call(t) | AOp::CallRef(t) | AOp::Typed(t) | AOp::Param(t) => out.push(*t),
@@ -1065,14 +1081,18 @@ fn op_targets(op: &AOp, all: bool, out: &mut Vec<Tgt>) {
 /// kinds used only to label a known finding (implicit_pointer, variable_value, nested entry_value,
 /// location-list entries with an empty/inverted/tombstone range)
 fn refs_of(e: &AEntry, all: bool) -> Vec<usize> {
+    refs_of_bounded(e, all, usize::MAX)
+}
+
+fn refs_of_bounded(e: &AEntry, all: bool, max_nest: usize) -> Vec<usize> {
     let mut t = Vec::new();
     for a in &e.attrs {
         match a {
             AAttr::Ref(x) | AAttr::GRef(x) => t.push(*x),
-            AAttr::Expr(ops) => ops.iter().for_each(|o| op_targets(o, all, &mut t)),
+            AAttr::Expr(ops) => ops.iter().for_each(|o| op_targets_bounded(o, all, max_nest, &mut t)),
             AAttr::Loc(l) => l.iter().for_each(|(k, ops)| {
                 if all || *k == 'n' {
-                    ops.iter().for_each(|o| op_targets(o, all, &mut t))
+                    ops.iter().for_each(|o| op_targets_bounded(o, all, max_nest, &mut t))
                 }
             }),
         }
@@ -1106,6 +1126,10 @@ fn lost_target(f: &Forest, kept: &BTreeSet<usize>, want_op: bool) -> bool {
 }
 
 fn closure(f: &Forest, all_refs: bool, every_child: bool) -> BTreeSet<usize> {
+    // the lower bound (`every_child == false`) does not demand targets that only an unconvertible
+    // nesting depth reaches; the upper bound allows them
+    let max_nest = if every_child { usize::MAX } else { MAX_NEST };
+    let refs_of = |e: &AEntry, all: bool| refs_of_bounded(e, all, max_nest);
     let mut s: BTreeSet<usize> = f.required.clone();
     // the unit root DIEs are always part of the output: what they reference must be kept
     for r in &f.roots {
